@@ -4,6 +4,7 @@ import BSEModel.Validator
 import BSEGen.Api
 import BSEProofs.Lemmas.PruneValid
 import BSEProofs.Lemmas.SegValid
+import BSEProofs.Lemmas.Closure
 /-! # C08 — every basis handed out is well-formed
 
 The closing `prune_basis` of the `get_basis` option pipeline establishes, for *any* shell list it is
@@ -230,6 +231,56 @@ theorem uncontractSegmented_valid [DecidableEq ν] (val : ν → Rat) (one : ν)
   rw [hid] at hp
   cases hp
   exact v
+
+/-! ## closure: the final prune turns every *prepared* shell list into a valid element
+
+`Prepared` (Lemmas/Closure.lean) = rectangular non-zero columns, the right spherical/cartesian tag, positive exponents, one
+column per member of a fused shell.  Valid shells are prepared; so are the shells `make_general` merges from them and the
+parts `uncontract_spdf` splits them into.  Hence each of these options, followed by the prune that `get_basis` always runs
+(`getBasis_always_prunes`), hands out a valid element.  The one rule no pruning can create, "no duplicate contraction in a
+single-momentum shell", stays a hypothesis: it fails exactly when the input holds one contracted function twice (known
+finding F10b shows the real code doing that). -/
+
+/-- **the final `prune_basis` establishes validity** for every prepared shell list -/
+theorem final_prune_establishes_validity [DecidableEq ν] (val : ν → Rat) (shells out : List (Shell ν))
+    (hp : ∀ sh ∈ shells, Prepared val sh) (h : pruneShells val shells = .ok out)
+    (hdup : ∀ s ∈ out, s.am.length = 1 → (s.coefs.map (·.map val)).Nodup) :
+    validateElement val (some out) none false = none :=
+  pruneShells_valid val shells out hp h hdup
+
+/-- **`make_general`, fused shells left alone (`skip_spdf=True`, as `optimize_general` calls it)**: valid in, valid out -/
+theorem makeGeneral_skip_valid [DecidableEq ν] (val : ν → Rat) (zero : ν) (hz : val zero = 0) (shells out : List (Shell ν))
+    (hv : ∀ sh ∈ shells, validateShell val sh = none ∧ sh.coefs ≠ [])
+    (h : makeGeneral val zero true shells = .ok out)
+    (hdup : ∀ s ∈ out, s.am.length = 1 → (s.coefs.map (·.map val)).Nodup) :
+    validateElement val (some out) none false = none :=
+  makeGeneral_valid val zero hz shells out (fun sh hsh => ⟨(validateShell_iff val sh).1 (hv sh hsh).1, (hv sh hsh).2⟩) h hdup
+
+/-- **`make_general` as `get_basis` calls it** (fused shells split first): valid in, valid out, for elements whose fused
+shells have an s member and whose function types are the schema's -/
+theorem makeGeneral_full_valid [DecidableEq ν] (val : ν → Rat) (zero : ν) (hz : val zero = 0) (shells out : List (Shell ν))
+    (hv : ∀ sh ∈ shells, validateShell val sh = none ∧ sh.coefs ≠ [] ∧ sh.ftype ∈ knownTypes)
+    (hlow : ∀ sh ∈ shells, sh.am.length > 1 → (splitFused 0 sh).2.am ≠ [])
+    (h : makeGeneral val zero false shells = .ok out)
+    (hdup : ∀ s ∈ out, s.am.length = 1 → (s.coefs.map (·.map val)).Nodup) :
+    validateElement val (some out) none false = none :=
+  makeGeneral_valid_split val zero hz shells out
+    (fun sh hsh => ⟨(validateShell_iff val sh).1 (hv sh hsh).1, (hv sh hsh).2.1, (hv sh hsh).2.2⟩) hlow h hdup
+
+/-- **`uncontract_spdf` + the final prune**: valid in, valid out, for every `max_am` that leaves each fused shell a member -/
+theorem uncontractSpdf_prune_valid [DecidableEq ν] (val : ν → Rat) (k : Nat) (shells out : List (Shell ν))
+    (hv : ∀ sh ∈ shells, validateShell val sh = none ∧ sh.coefs ≠ [] ∧ sh.ftype ∈ knownTypes)
+    (hlow : ∀ sh ∈ shells, sh.am.length > 1 → (splitFused k sh).2.am ≠ [])
+    (h : pruneShells val (uncontractSpdf k shells) = .ok out)
+    (hdup : ∀ s ∈ out, s.am.length = 1 → (s.coefs.map (·.map val)).Nodup) :
+    validateElement val (some out) none false = none :=
+  uncontractSpdf_valid val k shells out
+    (fun sh hsh => ⟨(validateShell_iff val sh).1 (hv sh hsh).1, (hv sh hsh).2.1, (hv sh hsh).2.2⟩) hlow h hdup
+
+/-- the hypotheses are met: an sp shell of the schema's type keeps its s member under `max_am = 0` -/
+example : let sh : Shell String := { am := [0, 1], ftype := "gto", region := "", exps := ["2.0", "1.0"], coefs := [["0.5", "0.5"], ["0.3", "0.7"]] }
+    validateShell numVal sh = none ∧ sh.ftype ∈ knownTypes ∧ (splitFused 0 sh).2.am ≠ [] := by
+  refine ⟨by decide +kernel, by decide, by decide⟩
 
 /-- operations that can leave duplicate exponents, dead primitives or duplicate shells behind -/
 def needsRepair : Op → Bool
